@@ -450,3 +450,167 @@ def check_ack_processing(ctx, rule="T-ACKEST"):
                     "" if pruned or want[0] != "valid" else ", retransmission queue not pruned"))
     else:
         ctx.ok(rule, key, b.span, "duplicate / unsent / acceptable ACK handling and the window-update condition agree with RFC 9293 3.10.7.4 on all %d evaluated combinations (two bases, one across the 2^32 wrap)" % n)
+
+
+# ---------------------------------------------------------------------------------------------- CLOSED / LISTEN
+def _agg_fields(prog, t):
+    """('agg', 'path::Adt::Adt' | 'path::Adt', (ops...)) -> {field name: term} using the ADT's declared field order."""
+    if t[0] != "agg":
+        return None
+    name = t[1]
+    for cand in (name, name.rsplit("::", 1)[0]):
+        a = prog.adts.get(cand)
+        if a is not None and a.get("kind") == "struct":
+            fs = [f["name"] for f in a["variants"][0]["fields"]]
+            if len(fs) == len(t[2]):
+                return dict(zip(fs, t[2]))
+    return None
+
+
+def _builder_chain(t):
+    """ack(rst(new(sp, dp, seq)), x) ... -> {'new': (sp, dp, seq), 'flags': {'rst', 'ack', 'syn', 'fin'}, 'ack': x, 'wnd': y}"""
+    out = {"flags": set()}
+    while t[0] == "call":
+        nm = t[1].rsplit("::", 1)[-1]
+        if nm in ("rst", "syn", "fin", "psh", "urg") and len(t[2]) == 1:
+            out["flags"].add(nm)
+            t = t[2][0]
+        elif nm == "ack" and len(t[2]) == 2:
+            out["flags"].add("ack")
+            out["ack"] = t[2][1]
+            t = t[2][0]
+        elif nm == "wnd" and len(t[2]) == 2:
+            out["wnd"] = t[2][1]
+            t = t[2][0]
+        elif nm == "new" and len(t[2]) == 3:
+            out["new"] = t[2]
+            return out
+        elif nm == "header_builder" and len(t[2]) == 2:
+            out["new"] = (None, None, t[2][1])
+            out["of"] = t[2][0]
+            return out
+        elif nm in ("ok", "build", "map", "unwrap", "expect") and t[2]:
+            t = t[2][0]
+        else:
+            return None
+    return None
+
+
+def check_closed_listen(ctx, rule_c="T-CLOSED", rule_l="T-LISTEN"):
+    """segment_arrives_closed / segment_arrives_listen as formulas against RFC 9293 3.10.7.1 / 3.10.7.2."""
+    prog = ctx.prog()
+    # ---- CLOSED
+    b = prog.one("protocols::tcp::tcb::segment_arrives_closed")
+    try:
+        t, _ = S.extract(prog, b, effects=True)
+    except S.Unsupported as e:
+        ctx.require(False, "%s: cannot extract segment_arrives_closed (%s)" % (rule_c, e))
+    ps = S.params_of(b)
+    SEG = ps[0]
+    TLEN = ps[1]
+    fl = lambda n: ("call", None, n)
+    probs = []
+
+    def flag_of(c):
+        if c[0] == "call" and c[1].rsplit("::", 1)[-1] in ("rst", "ack", "syn", "fin") and c[2] and c[2][0][0] == "field" and c[2][0][2] == "ctl":
+            return c[1].rsplit("::", 1)[-1]
+        return None
+
+    def leaves(x, conds):
+        if x[0] == "ite":
+            f = flag_of(x[1])
+            if f is None:
+                ctx.require(False, "%s: unrecognised condition %s" % (rule_c, S.term_str(x[1])[:80]))
+            yield from leaves(x[2], dict(conds, **{f: True}))
+            yield from leaves(x[3], dict(conds, **{f: False}))
+        else:
+            yield conds, x
+    seen = set()
+    for conds, leaf in leaves(t, {}):
+        ret = leaf[1] if leaf[0] == "state" else leaf
+        if conds.get("rst"):
+            seen.add("rst")
+            if not (ret[0] in ("variant", "agg") and "None" in str(ret[1:3])):
+                probs.append("a RST arriving for a closed connection is answered (%s); it must be discarded" % S.term_str(ret)[:80])
+            continue
+        ch = _builder_chain(ret)
+        if ch is None or "new" not in ch:
+            probs.append("a segment to a closed connection is not answered with a reset (%s)" % S.term_str(ret)[:100])
+            continue
+        sp, dp, seqt = ch["new"]
+        if sp != ("field", SEG, "dst_port") or dp != ("field", SEG, "src_port"):
+            probs.append("the reset does not go back to the sender's port from the port it addressed")
+        if conds.get("ack"):
+            seen.add("ack")
+            if ch["flags"] != {"rst"} or seqt != ("field", SEG, "ack"):
+                probs.append("a segment with ACK to a closed connection must be answered <SEQ=SEG.ACK><CTL=RST>; found flags %s, SEQ=%s" % (sorted(ch["flags"]), S.term_str(seqt)))
+        else:
+            seen.add("noack")
+            want_ack = S.lin(("call", "wrapping_add", (("field", SEG, "seq"), TLEN)))
+            if ch["flags"] != {"rst", "ack"} or seqt != ("const", 0) or S.lin(ch.get("ack", ("const", -1))) != want_ack:
+                probs.append("a segment without ACK to a closed connection must be answered <SEQ=0><ACK=SEG.SEQ+SEG.LEN><CTL=RST,ACK>; found flags %s, SEQ=%s, ACK=%s" % (
+                    sorted(ch["flags"]), S.term_str(seqt), S.term_str(ch.get("ack", ("const", 0)))[:60]))
+    if seen != {"rst", "ack", "noack"}:
+        probs.append("the three cases RST / ACK / no ACK are not all distinguished (%s)" % sorted(seen))
+    (ctx.bad if probs else ctx.ok)(rule_c, rule_c + ":segment_arrives_closed", b.span, "; ".join(sorted(set(probs))[:3]) if probs else
+        "RST discarded; ACK -> <SEQ=SEG.ACK><RST>; otherwise <SEQ=0><ACK=SEG.SEQ+SEG.LEN><RST,ACK>, ports swapped")
+    # ---- LISTEN
+    b = prog.one("protocols::tcp::tcb::segment_arrives_listen")
+    try:
+        t, _ = S.extract(prog, b, effects=True)
+    except S.Unsupported as e:
+        ctx.require(False, "%s: cannot extract segment_arrives_listen (%s)" % (rule_l, e))
+    names = [p_[1] for p_ in S.params_of(b)]
+    P = dict(zip(names, S.params_of(b)))
+    probs = []
+    seen = set()
+
+    def hdr(f):
+        return lambda x: x[0] == "field" and x[2] == f and "into_inner" in S.term_str(x[1])
+    for conds, leaf in leaves(t, {}):
+        ret = leaf[1] if leaf[0] == "state" else leaf
+        if conds.get("rst"):
+            seen.add("rst")
+            if "None" not in str(ret[1:3]):
+                probs.append("a RST arriving in LISTEN is not ignored")
+            continue
+        if conds.get("ack"):
+            seen.add("ack")
+            ch = _builder_chain(ret)
+            if ch is None or ch["flags"] != {"rst"} or not hdr("ack")(ch["new"][2]):
+                probs.append("a segment with ACK arriving in LISTEN must be answered <SEQ=SEG.ACK><CTL=RST>")
+            continue
+        if conds.get("syn"):
+            seen.add("syn")
+            if not (ret[0] == "agg" and ret[1].endswith("Option::Some")):
+                probs.append("a SYN arriving in LISTEN does not create a connection")
+                continue
+            s_ = S.term_str(ret)
+            tcb = ret[2][0]
+            snds = S.atoms(tcb, lambda x: x[0] == "agg" and x[1].rsplit("::", 1)[-1] == "SendSequenceSpace")
+            rcvs = S.atoms(tcb, lambda x: x[0] == "agg" and x[1].rsplit("::", 1)[-1] == "ReceiveSequenceSpace")
+            if not snds or not rcvs:
+                probs.append("the new TCB's sequence spaces are not initialised from the SYN")
+                continue
+            sf, rf = _agg_fields(prog, snds[0]), _agg_fields(prog, rcvs[0])
+            ISS = P.get("iss")
+            if sf is None or rf is None or ISS is None:
+                ctx.require(False, "%s: sequence space layout changed" % rule_l)
+            if not hdr("seq")(rf["irs"]) or S.lin(rf["nxt"]) != S.lin_shift(S.lin(rf["irs"]), 1):
+                probs.append("LISTEN + SYN: IRS / RCV.NXT are not SEG.SEQ / SEG.SEQ+1")
+            if sf["iss"] != ISS or sf["una"] != ISS or S.lin(sf["nxt"]) != S.lin_shift(S.lin(ISS), 1):
+                probs.append("LISTEN + SYN: SND.UNA / SND.NXT / ISS are not ISS / ISS+1 / ISS")
+            enq = S.atoms(tcb, lambda x: x[0] == "upd" and x[1].rsplit("::", 1)[-1] == "enqueue")
+            ch = _builder_chain(enq[0][3][1]) if enq else None
+            if ch is None or ch["flags"] != {"syn", "ack"} or ch["new"][2] != ISS or S.lin(ch.get("ack", ("const", 0))) != S.lin_shift(S.lin(rf["irs"]), 1):
+                probs.append("LISTEN + SYN must be answered <SEQ=ISS><ACK=SEG.SEQ+1><CTL=SYN,ACK>")
+            if "SynReceived" not in s_:
+                probs.append("LISTEN + SYN does not enter SYN-RECEIVED")
+            continue
+        seen.add("other")
+        if "None" not in str(ret[1:3]):
+            probs.append("a segment without SYN, ACK or RST arriving in LISTEN is not dropped")
+    if not {"rst", "ack", "syn"} <= seen:
+        probs.append("the cases RST / ACK / SYN are not all distinguished (%s)" % sorted(seen))
+    (ctx.bad if probs else ctx.ok)(rule_l, rule_l + ":segment_arrives_listen", b.span, "; ".join(sorted(set(probs))[:3]) if probs else
+        "RST ignored; ACK -> <SEQ=SEG.ACK><RST>; SYN -> SYN-RECEIVED with IRS=SEG.SEQ, RCV.NXT=SEG.SEQ+1, SND.UNA=ISS, SND.NXT=ISS+1 and <SEQ=ISS><ACK=RCV.NXT><SYN,ACK>; anything else dropped")
